@@ -5,12 +5,15 @@ From Coq Require Import List ZArith Bool Lia.
 From Ivv Require Import Core.Kernel Core.CoreTypes Core.CoreFd Core.CoreModel Core.Monitors Core.CoreSpec
   Core.CoreRel Core.CorePhase2TimeMon Core.CorePhase2TimeFr Core.CorePhase2TimeT1 Core.CorePhase2TimeT1L
   Core.CorePhase2TimeMon2 Core.CorePhase2TimeSl Core.CorePhase2TimeReq.
-From Ivv Require Import Core.CoreInvBase Core.CoreInvDefs Core.CoreInvObj Core.CoreInvLoop Core.CoreInvWait.
+From Ivv Require Import Core.CoreInvBase Core.CoreInvDefs Core.CoreInvObj Core.CoreInvLoop Core.CoreInvWait Core.CoreInv.
 From Ivv Require Import Core.CorePhase2K1Base Core.CorePhase2K1Fd Core.CorePhase2K1Act Core.CorePhase2K1Inv
-  Core.CorePhase2K1Loop Core.CorePhase2K1Wait.
+  Core.CorePhase2K1Loop Core.CorePhase2K1Wait Core.CorePhase2K1Poll Core.CorePhase2K1.
 From Ivv Require Timer.HeapModel.
 Import ListNotations.
 Local Open Scope Z_scope.
+
+Section RA.
+Context `{RAi : RawAssume}.
 
 (* ---------- the armed timer descriptor ---------- *)
 Definition ArmedT (s : core) (D : Z) : Prop :=
@@ -43,9 +46,9 @@ Proof.
 Qed.
 
 (* ---------- a posted raw event is readable (supplied by the raw-event invariant) ---------- *)
-Definition RawQe (s : core) : Prop := forall j, inr16 j -> a_rw (mst s) j = true -> a_rwp (mst s) j = true ->
+Definition RawQe (s : core) : Prop := raw_assume -> forall j, inr16 j -> a_rw (mst s) j = true -> a_rwp (mst s) j = true ->
   exists e, In e (ep (kern s)) /\ ep_ready_bits (kern s) e <> 0.
-Definition RawQp (s : core) : Prop := forall j, inr16 j -> a_rw (mst s) j = true -> a_rwp (mst s) j = true ->
+Definition RawQp (s : core) : Prop := raw_assume -> forall j, inr16 j -> a_rw (mst s) j = true -> a_rwp (mst s) j = true ->
   exists p, In p (pfds s) /\ poll_revents (kern s) (fst p) (snd p) <> 0.
 
 Lemma raw_quiet : forall m, (forall j, inr16 j -> a_rw m j = true -> a_rwp m j = true -> False) ->
@@ -165,11 +168,11 @@ Proof.
     assert (WC2 : w_call (mst s2) = call) by (change (mst s2) with (mst (emit s1 ev)); rewrite mst_emit; apply w_call_TWait).
     assert (CP : 0 <= clock (kern s1)) by (destruct (t1_stale _ TS1) as (_ & X & _); lia).
     assert (RW2 : RawQe s2).
-    { intros j JR A1 A2. change (mst s2) with (mst (emit s1 ev)) in A1, A2. rewrite mst_emit in A1, A2.
+    { intros RAh j JR A1 A2. change (mst s2) with (mst (emit s1 ev)) in A1, A2. rewrite mst_emit in A1, A2.
       unfold ev in A2. rewrite a_rwp_step in A2.
       assert (V : mview (mon_step (mst s1) ev) = mview (mst s1)) by apply mview_TWait.
       assert (E : a_rw (mon_step (mst s1) ev) = a_rw (mst s1)) by (change (a_rw (mview (mon_step (mst s1) ev)) = a_rw (mst s1)); rewrite V; reflexivity).
-      rewrite E in A1. apply (HR j JR A1 A2). }
+      rewrite E in A1. apply (HR RAh j JR A1 A2). }
     pose proof (epoll_sleep_spec (kern s1) maxev timeout (sc_rot sc n)) as KS.
     assert (KB : forall D, KSBa (kern s1) timeout A D ->
               match k_epoll_sleep (kern s1) maxev timeout (sc_rot sc n) with
@@ -186,7 +189,7 @@ Proof.
       { destruct (SReq_ret s2 call timeout A (clock k1) J2 RQ2 WC2) as [C602 C04].
         { intros D SB. specialize (KB D SB). change (kern s2) with (kern s1). lia. }
         apply G1_TRet_some; [apply (t1_good _ TS2)|exact C602| |exact C04].
-        intros SL. apply raw_quiet. intros j JR A1 A2. specialize (KR (RW2 j JR A1 A2)).
+        intros RAh SL. apply raw_quiet. intros j JR A1 A2. specialize (KR (RW2 RAh j JR A1 A2)).
         rewrite (ag_clk _ _ (j_ag _ _ J2)) in SL. change (kern s2) with (kern s1) in SL. lia. }
       destruct (T1_ret s2 k1 (Some (Z.of_nat (length evs))) (map (fun e => fst (fst e)) evs) TS2 K2 GR) as [X Y].
       cbn [W1]. split; [exact X|]. split; [transitivity (ran (mst s2)); [exact Y|exact RN2]|exact BF2].
@@ -194,7 +197,7 @@ Proof.
     + cbn [W1 halt]. rewrite mst_emit.
       destruct (SReq_hang s2 call timeout A J2 RQ2) as [H1 H2]; [intros D SB; exact (KB D SB)|].
       apply G1_THang; [apply (t1_good _ TS2)|exact H1|exact H2|].
-      apply raw_quiet. intros j JR A1 A2. exact (KR (RW2 j JR A1 A2)).
+      intros RAh. apply raw_quiet. intros j JR A1 A2. exact (KR (RW2 RAh j JR A1 A2)).
     + destruct KS.
 Qed.
 
@@ -553,11 +556,11 @@ Proof.
       change (mst s2) with (mst (emit s1 ev)). rewrite mst_emit. unfold ev. rewrite a_stale_step. auto. }
     assert (WC2 : w_call (mst s2) = call) by (change (mst s2) with (mst (emit s1 ev)); rewrite mst_emit; apply w_call_TWait).
     assert (RW2 : RawQp s2).
-    { intros j JR A1 A2. change (mst s2) with (mst (emit s1 ev)) in A1, A2. rewrite mst_emit in A1, A2.
+    { intros RAh j JR A1 A2. change (mst s2) with (mst (emit s1 ev)) in A1, A2. rewrite mst_emit in A1, A2.
       unfold ev in A2. rewrite a_rwp_step in A2.
       assert (V : mview (mon_step (mst s1) ev) = mview (mst s1)) by apply mview_TWait.
       assert (E : a_rw (mon_step (mst s1) ev) = a_rw (mst s1)) by (change (a_rw (mview (mon_step (mst s1) ev)) = a_rw (mst s1)); rewrite V; reflexivity).
-      rewrite E in A1. apply (HR j JR A1 A2). }
+      rewrite E in A1. apply (HR RAh j JR A1 A2). }
     pose proof (poll_sleep_spec (kern s1) (pfds s1) timeout) as KS.
     assert (KB : forall D, KSBa (kern s1) timeout (fun _ => False) D ->
               match k_poll_sleep (kern s1) (pfds s1) timeout with
@@ -575,7 +578,7 @@ Proof.
       { destruct (SReq_ret s2 call timeout (fun _ => False) (clock k1) J2 RQ2 WC2) as [C602 C04].
         { intros D SB. specialize (KB D SB). change (kern s2) with (kern s1). lia. }
         apply G1_TRet_some; [apply (t1_good _ TS2)|exact C602| |exact C04].
-        intros SL. apply raw_quiet. intros j JR A1 A2. specialize (KR (RW2 j JR A1 A2)).
+        intros RAh SL. apply raw_quiet. intros j JR A1 A2. specialize (KR (RW2 RAh j JR A1 A2)).
         rewrite (ag_clk _ _ (j_ag _ _ J2)) in SL. change (kern s2) with (kern s1) in SL. lia. }
       destruct (T1_ret s2 k1 (Some (count_nonzero revs)) (reported_pfds (pfds s1) revs) TS2 K2 GR) as [X Y].
       set (s3 := emit (set_kern s2 k1) _) in *.
@@ -586,7 +589,7 @@ Proof.
     + unfold halt. cbn [fst Q1W]. rewrite mst_emit.
       destruct (SReq_hang s2 call timeout (fun _ => False) J2 RQ2) as [H1 H2]; [intros D SB; exact (KB D SB)|].
       apply G1_THang; [apply (t1_good _ TS2)|exact H1|exact H2|].
-      apply raw_quiet. intros j JR A1 A2. exact (KR (RW2 j JR A1 A2)).
+      intros RAh. apply raw_quiet. intros j JR A1 A2. exact (KR (RW2 RAh j JR A1 A2)).
 Qed.
 
 Lemma rawsame_poll_fallback : forall s, rawsame s (set_method (invalidate_now s) M_PO).
@@ -810,4 +813,79 @@ Proof.
            end
       else m_poll sc s abs) as [r rt]. cbn [fst] in *. apply DISP; apply G.
 Qed.
+
+(* without the raw-event assumption the raw requirement is void *)
+Lemma RawPR_off : forall s abs, (raw_assume -> False) -> RawPR s abs.
+Proof.
+  intros s abs NO. assert (E : forall s0, RawE s0) by (intros s0 a b _ _ H; destruct (NO H)).
+  assert (P : forall s0, RawP s0) by (intros s0 a b _ _ H; destruct (NO H)).
+  assert (M : forall s0, RawM s0) by (intros s0; unfold RawM; destruct (is_epoll s0); [intros s1 _; apply E|apply P]).
+  unfold RawPR. destruct (method s =? M_ET); [intros s0 fl _; apply M|apply M].
+Qed.
+
+(* ---------- iv_main ---------- *)
+(* the loop-level invariant of the raw events (supplied by the raw-event development) *)
+Variable R3 : core -> Prop.
+Hypothesis R3_use : forall s, J true s -> InvT s -> R3 s -> RawPR s (AbsOf s).
+Hypothesis R3_timers : forall s s', J true s -> InvT s -> R3 s -> run_timers sc s = R s' -> R3 s'.
+Hypothesis R3_tasks : forall s s', J true s -> InvT s -> R3 s -> run_tasks sc s = R s' -> R3 s'.
+Hypothesis R3_poll : forall s s', J true s -> InvT s -> R3 s -> fst (poll_and_run sc s (AbsOf s)) = R s' -> R3 s'.
+
+Lemma InvT_parts : forall s, InvT s -> InvW s /\ cur s = None /\ HeapModel.batch (heap s) = [] /\ Q3 s.
+Proof.
+  intros s ((IW & Qt) & _). split; [exact IW|]. split; [apply (q_cur _ Qt)|]. split; [apply (q_batch _ Qt)|].
+  split; [apply (q_batch _ Qt)|split; [apply (q_cur _ Qt)|apply (q_evb _ Qt)]].
+Qed.
+
+Lemma main_loop_Q1 : forall fuel s rt, J true s -> T1 s -> InvT s -> LKM s -> R3 s ->
+  nwait (kern s) <= sc_limit sc -> ran (mst s) = [] -> Q1T s (main_loop sc fuel s rt).
+Proof.
+  induction fuel as [|fuel IH]; intros s rt Jh T IT LM RR NW RN; cbn [main_loop].
+  - cbn [Q1T halt]. apply (t1_good (emit s TCrash)). apply (T1_F0 s _ T). apply (F0_halt s TCrash I).
+  - destruct (InvT_parts s IT) as (IW & C & B & Q3s).
+    (* timers *)
+    assert (P1 : Post true s (if rt then run_timers sc s else R s)).
+    { destruct rt; [apply run_timers_post; assumption|apply Post_same; assumption]. }
+    assert (QT : Q1 s (if rt then run_timers sc s else R s)).
+    { destruct rt; [apply run_timers_Q1; assumption|apply Q1_same; assumption]. }
+    assert (K1' : forall s1, (if rt then run_timers sc s else R s) = R s1 -> InvT s1 /\ LKM s1 /\ R3 s1 /\ nwait (kern s1) = nwait (kern s)).
+    { intros s1 E. destruct rt; [|inversion E; subst; auto].
+      destruct IT as [IV TM]. pose proof (run_timers_ok' sc WF s IW Q3s) as OK. rewrite E in OK. cbn [okr] in OK.
+      destruct (Ph_Inv sc WF s s1 IV OK) as (IV1 & N1 & TM1).
+      pose proof (run_timers_K sc WF do_action_ok s IW Q3s) as PKK. rewrite E in PKK. unfold PK in PKK. cbn [ARes] in PKK.
+      split; [split; [exact IV1|eapply TfdM_tm; eassumption]|]. split; [eapply LKM_TFs; [exact LM|apply PKK]|].
+      split; [apply (R3_timers s s1 Jh (conj IV TM) RR E)|exact N1]. }
+    destruct (if rt then run_timers sc s else R s) as [s1|s1]; cbn [bind Post Q1 Q1T] in *; [|exact QT].
+    destruct P1 as [J1 F1]. destruct QT as [TS1 [R1 BF1]]. destruct (K1' s1 eq_refl) as (IT1 & LM1 & RR1 & NW1).
+    destruct (InvT_parts s1 IT1) as (IW1 & C1 & B1 & Q31).
+    (* tasks *)
+    pose proof (run_tasks_post sc WF s1 J1 C1) as P2.
+    pose proof (run_tasks_Q1 sc WF s1 J1 TS1 C1 (R1 RN)) as Q2.
+    assert (K2 : forall s2, run_tasks sc s1 = R s2 -> InvT s2 /\ LKM s2 /\ R3 s2 /\ nwait (kern s2) = nwait (kern s1)).
+    { intros s2 E. destruct IT1 as [IV TM]. pose proof (run_tasks_ok' sc WF s1 IW1 Q31) as OK. rewrite E in OK. cbn [okr] in OK.
+      destruct (Ph_Inv sc WF s1 s2 IV OK) as (IV2 & N2 & TM2).
+      pose proof (run_tasks_K sc WF do_action_ok s1 IW1 Q31) as PKK. rewrite E in PKK. unfold PK in PKK. cbn [ARes] in PKK.
+      split; [split; [exact IV2|eapply TfdM_tm; eassumption]|]. split; [eapply LKM_TFs; [exact LM1|apply PKK]|].
+      split; [apply (R3_tasks s1 s2 J1 (conj IV TM) RR1 E)|exact N2]. }
+    destruct (run_tasks sc s1) as [s2|s2]; cbn [bind PostT Q1T] in *; [|exact Q2].
+    destruct P2 as [J2 C2]. destruct Q2 as [TS2 BF2]. destruct (K2 s2 eq_refl) as (IT2 & LM2 & RR2 & NW2).
+    destruct (InvT_parts s2 IT2) as (IW2 & _ & B2 & Q32).
+    destruct (quit s2 || (numobjs s2 =? 0)) eqn:QN.
+    { split; [exact TS2|]. intros H. exact B2. }
+    apply orb_false_iff in QN. destruct QN as [Q2' _].
+    change (match tasks s2 with _ :: _ => Some 0 | [] => soonest_timeout s2 end) with (AbsOf s2).
+    pose proof (poll_and_run_post sc WF s2 (AbsOf s2) J2 Q2') as P3.
+    pose proof (poll_and_run_Q1 s2 J2 TS2 Q2' IW2 LM2 C2 B2 (R3_use s2 J2 IT2 RR2)) as Q3.
+    pose proof (poll_and_run_inv sc WF s2 (AbsOf s2)) as PI.
+    pose proof (poll_and_run_LKM sc WF do_action_ok s2 (AbsOf s2)) as PL.
+    pose proof (R3_poll s2) as PR.
+    destruct (poll_and_run sc s2 (AbsOf s2)) as [r rt']. cbn [fst] in P3, Q3, PI, PL, PR.
+    destruct r as [s3|s3]; cbn [bind Post0 Q1W Q1T] in *; [|exact Q3].
+    destruct P3 as [J3 C3]. destruct Q3 as (TS3 & RN3 & BF3).
+    destruct (PI s3 IT2 eq_refl) as (IT3 & N3 & N3').
+    specialize (PL s3 (proj1 (InvT_LoopInv s2) IT2) LM2 eq_refl). specialize (PR s3 J2 IT2 RR2 eq_refl).
+    apply (Q1T_l s s3); [intros H; apply (proj2 (proj2 (proj2 (InvT_parts s3 IT3))))|].
+    apply IH; assumption.
+Qed.
 End Wait.
+End RA.
